@@ -254,7 +254,27 @@ MENU = [
     ("blanks", "  P7 \t "),                      # leading / trailing blanks
     ("inner-blank", "P  7"),                     # extension: inner blanks (PointID keeps one)
 ]
-MENU_D = dict(MENU)
+# escape-structure items: every ORDERED PAIR of special characters adjacent to
+# each other (5 x 5, doubled ones included) and every special character as the
+# first / as the last character of the string.  They are applied to the
+# description, to one point id and to one extern position of every network.
+SPECIALS = [("amp", "&"), ("lt", "<"), ("gt", ">"), ("quot", '"'), ("apos", "'")]
+MENU_X = ([("pair-%s-%s" % (a, b), "P" + ca + cb + "7") for a, ca in SPECIALS for b, cb in SPECIALS] +
+          [("first-%s" % a, ca + "P7") for a, ca in SPECIALS] +
+          [("last-%s" % a, "P7" + ca) for a, ca in SPECIALS])
+MENU_D = dict(MENU + MENU_X)
+_X_TEXTS = set(t for _, t in MENU_X)
+
+
+def sigclass(item, relevant):
+    """character class used in a signature: the first of `relevant` (names of
+    SPECIALS, in the given order) whose character occurs in the item's string,
+    else the item name.  A defect that is triggered by one character is thus
+    named by that character whatever else the string holds."""
+    text = MENU_D[item]; d = dict(SPECIALS)
+    for n in relevant:
+        if d[n] in text: return n
+    return item
 
 
 def norm_id(s):
@@ -307,7 +327,8 @@ def apply(net, pos, text):
     if pos.startswith("pt:"):
         rename_all(n, {pos[3:]: text})
     elif pos == "desc":
-        n.description = "net " + text + " end"
+        # escape-structure items are the whole description (first / last character matter)
+        n.description = text if text in _X_TEXTS else "net " + text + " end"
     elif pos.startswith("ext:"):
         _, ci, oi = pos.split(":")
         c = n.clusters[int(ci)]
